@@ -795,4 +795,301 @@ theorem disp_conditional (cx : Btclib.Ctx) (sc : Bytes) (t : Nat) (raw : Bytes) 
     rw [e]; rfl
 
 
+/-! ### pushes; op codes refused by both -/
+
+theorem nat_beq_comm (a b : Nat) : (a == b) = (b == a) := by
+  cases h : a == b <;> cases h' : b == a <;> simp_all
+
+theorem minimal_eq (data : Bytes) (t : Nat) (ht : 0 < t) (hl : data.length ≤ 520) :
+    minimalPush data t = Core.checkMinimalPush data t := by
+  rcases data with _ | ⟨b, _ | ⟨b2, r⟩⟩
+  · simp [minimalPush, Core.checkMinimalPush]; omega
+  · have hb : b.toNat < 256 := b.toNat_lt
+    simp only [minimalPush, minimalPush.getB0, Core.checkMinimalPush, List.length_cons, List.length_nil, List.headD_cons,
+      pushData]
+    by_cases h1 : 1 ≤ b.toNat ∧ b.toNat ≤ 16
+    · have : (0 < b.toNat ∧ b.toNat ≤ 16) := by omega
+      simp [h1, this]
+    · by_cases h2 : b.toNat = 0x81
+      · simp [h2]
+      · have h3 : ¬ (0 < b.toNat ∧ b.toNat ≤ 16) := by omega
+        have h4 : ¬ (b.toNat = 129) := h2
+        simp [h1, h2, h3, h4]
+        by_cases hp : 0 < b.toNat <;> by_cases hq : b.toNat ≤ 16 <;> simp [hp, hq] <;>
+          first | exact nat_beq_comm _ _ | omega
+  · simp only [List.length_cons] at hl
+    have hlen : (b :: b2 :: r).length = r.length + 2 := by simp
+    simp only [minimalPush, Core.checkMinimalPush, pushData, hlen]
+    have n1 : ((r.length + 2 == 1) = false) := by simp
+    have n0 : ((r.length + 2 == 0) = false) := by simp
+    simp only [n1, n0, Bool.false_and, Bool.or_self, Bool.false_eq_true, if_false]
+    by_cases c1 : r.length + 2 < 76
+    · have : r.length + 2 ≤ 75 := by omega
+      have hu : (UInt8.ofNat (r.length + 2)).toNat = r.length + 2 := by
+        simp [UInt8.toNat_ofNat']; omega
+      simp [c1, this, hu]
+      rw [Nat.mod_eq_of_lt (by omega), nat_beq_comm]
+    · have c1' : ¬ (r.length + 2 ≤ 75) := by omega
+      by_cases c2 : r.length + 2 < 256
+      · have : r.length + 2 ≤ 255 := by omega
+        simp [c1, c1', c2, this]
+        exact nat_beq_comm _ _
+      · have c2' : ¬ (r.length + 2 ≤ 255) := by omega
+        have c3 : r.length + 2 < 65536 := by omega
+        have c3' : r.length + 2 ≤ 65535 := by omega
+        simp [c1, c1', c2, c2', c3, c3']
+        exact nat_beq_comm _ _
+
+theorem not_disabled_low (t : Nat) (h : t ≤ 78) : Core.isDisabled t = false := by
+  simp only [Core.isDisabled, Core.DISABLED, List.contains_cons, List.contains_nil, Bool.or_false]
+  simp only [Bool.or_eq_false_iff, beq_eq_false_iff_ne, ne_eq]
+  omega
+
+/-- the push family (op codes 1..78, all four widths), executing or not -/
+theorem sim_push (cx : Btclib.Ctx) (sc : Bytes) (st : St) (cst : Core.State) (c : UInt8) (r : Bytes) (op : Op) (rest : Bytes)
+    (hR : R st cst) (hsz : st.stack.length + st.alt.length ≤ 1000) (hs : st.s = c :: r)
+    (hc : 0 < c.toNat ∧ c.toNat ≤ 78) (hg : getOp (c :: r) = some (op, rest)) :
+    SimOp cx sc st cst op rest := by
+  obtain ⟨stack, alt, cond, cnt, idx, s⟩ := st
+  obtain ⟨h1, h2, h3, h4⟩ := hR
+  simp only at h1 h2 h3 h4 hs hsz
+  subst hs
+  obtain ⟨hcode, hrp⟩ := readPush_some c r op rest hg hc
+  have hall : cond.all id = cst.vfExec.all id := by rw [h3, all_snoc_true]
+  have hsz' : ¬ (stack.length + alt.length > 1000) := by omega
+  have hit : iter cx { stack := stack, alt := alt, cond := cond, opCodeNum := cnt, scriptIndex := idx, s := c :: r } =
+      match readPushData c.toNat r with
+      | none => none
+      | some (data, rest') =>
+        if !(cond.all id) then some (.more { stack := stack, alt := alt, cond := cond, opCodeNum := cnt, scriptIndex := idx + 1, s := rest' })
+        else if minimaldata cx && !minimalPush data c.toNat then none
+        else some (.more { stack := data :: stack, alt := alt, cond := cond, opCodeNum := cnt, scriptIndex := idx + 1, s := rest' }) := by
+    simp only [iter, Gen.Script.N_MAX_STACK_SIZE, hsz', if_false, hc, and_self, if_true]
+    cases readPushData c.toNat r <;> rfl
+  unfold SimOp
+  have hnd : Core.isDisabled op.code = false := by rw [hcode]; exact not_disabled_low _ hc.2
+  have hncnt : (decide (op.code > 0x60)) = false := by rw [hcode]; simp; omega
+  have hncs : (op.code == Core.OP_CODESEPARATOR) = false := by
+    rw [hcode]; simp only [Core.OP_CODESEPARATOR]; simp; omega
+  by_cases hbig : op.data.length > 520
+  · have : op.data.length > Core.MAX_SCRIPT_ELEMENT_SIZE := hbig
+    simp only [Core.stepChecks, this, if_true, Except.bind]
+    apply loop_iter_none
+    rw [hit, hrp]; simp [hbig]
+  · have hnb : ¬ (op.data.length > Core.MAX_SCRIPT_ELEMENT_SIZE) := hbig
+    simp only [hbig, if_false] at hrp
+    simp only [Core.stepChecks, hnb, if_false, hncnt, Bool.and_false, Bool.false_and, Bool.false_eq_true, hnd, hncs,
+      Except.bind]
+    rw [hrp] at hit
+    simp only at hit
+    have hle : (decide (op.code ≤ 0x4e)) = true := by rw [hcode]; simp; omega
+    have hnr : Core.inConditionalRange op.code = false := by
+      rw [hcode]; unfold Core.inConditionalRange Core.OP_IF Core.OP_ENDIF
+      simp only [Bool.and_eq_false_imp, decide_eq_true_eq, decide_eq_false_iff_not]; omega
+    have hfl : Core.has (coreCx cx sc).flags Core.FLAG_MINIMALDATA = minimaldata cx := rfl
+    have hmin : minimalPush op.data c.toNat = Core.checkMinimalPush op.data op.code := by
+      rw [hcode]; exact minimal_eq _ _ hc.1 (by omega)
+    cases hf : cst.vfExec.all id with
+    | false =>
+      rw [hf] at hall
+      simp only [Core.stepExec, Bool.false_and, Bool.false_eq_true, if_false, hnr]
+      refine ⟨1, { stack := stack, alt := alt, cond := cond, opCodeNum := cnt, scriptIndex := idx + 1, s := rest },
+        by omega, by omega, ⟨h1, h2, h3, h4⟩, rfl, fun f => loop_iter_more cx _ _ ?_ f⟩
+      rw [hit, hall]; rfl
+    | true =>
+      rw [hf] at hall
+      simp only [Core.stepExec, Bool.true_and, hle, if_true, hfl, ← hmin]
+      by_cases hm : (minimaldata cx && !minimalPush op.data c.toNat) = true
+      · simp only [hm, if_true]
+        apply loop_iter_none
+        rw [hit, hall]; simp [hm]
+      · have hm' : (minimaldata cx && !minimalPush op.data c.toNat) = false := by simpa using hm
+        simp only [hm', Bool.false_eq_true, if_false]
+        refine ⟨1, { stack := op.data :: stack, alt := alt, cond := cond, opCodeNum := cnt, scriptIndex := idx + 1, s := rest },
+          by omega, by omega, ⟨by simp only [h1], h2, h3, h4⟩, rfl, fun f => loop_iter_more cx _ _ ?_ f⟩
+        rw [hit, hall]; simp [hm']
+
+
+def badOps : List Nat := [0x50, 0x62, 0x89, 0x8a, 0x7e, 0x7f, 0x80, 0x81, 0x83, 0x84, 0x85, 0x86, 0x8d, 0x8e, 0x95, 0x96, 0x97, 0x98, 0x99]
+
+theorem badop_facts (cx : Core.Ctx) (pos opos : Nat) (m : Core.Machine) (t : Nat) (h : t ∈ badOps) :
+    Core.execPlain cx pos opos m t = .error .BAD_OPCODE ∧ kind t = .unknown ∧ Core.inConditionalRange t = false ∧ ¬ t ≤ 0x4e := by
+  simp only [badOps, List.mem_cons, List.mem_nil_iff, or_false] at h
+  rcases h with rfl | rfl | rfl | rfl | rfl | rfl | rfl | rfl | rfl | rfl | rfl | rfl | rfl | rfl | rfl | rfl | rfl | rfl | rfl <;>
+    exact ⟨rfl, by decide, by decide, by decide⟩
+
+/-- named op codes without a case (OP_RESERVED OP_VER OP_RESERVED1 OP_RESERVED2) and the disabled ones, when they are
+    reached at all: refused by both -/
+theorem disp_badop (cx : Btclib.Ctx) (sc : Bytes) (t : Nat) (raw : Bytes) (st1 : St) (s1 : Core.State) (ht : t ∈ badOps) :
+    DispOk cx sc t st1 s1 ⟨t, [], raw⟩ true := by
+  obtain ⟨he, hk, hnr, hnp⟩ := badop_facts (coreCx cx sc) s1.pos s1.opcodePos s1.m t ht
+  have hnp' : (decide (t ≤ 0x4e)) = false := by simpa using hnp
+  unfold DispOk Core.stepExec
+  simp only [Bool.true_and, hnp', Bool.false_eq_true, if_false, hnr, if_true, he, Except.map]
+  unfold dispatch
+  simp only [hk]
+
+
+/-! ### assembly -/
+
+/-- the op codes the loop-level refinement speaks about -/
+def coveredCode (c : Nat) : Bool :=
+  c ≤ 0x4e || (0x51 ≤ c && c ≤ 0x60) || c == 0x61 || nopNs.contains c || Refine.covered.contains c || c == 0x79 || c == 0x7a
+  || c == 0xb1 || c == 0xb2 || c == 0x63 || c == 0x64 || c == 0x65 || c == 0x66 || c == 0x67 || c == 0x68 || badOps.contains c
+
+/-- the scripts the loop-level refinement speaks about: every instruction Core's walk reads is a covered op code -/
+def covered (script : Bytes) : Bool := (parse script).1.all (fun op => coveredCode op.code)
+
+theorem covered_facts : ∀ t ∈ Refine.covered,
+    kind t = .operation ∧ ¬ (t = 0xad ∨ t = 0xaf) ∧ Core.inConditionalRange t = false ∧ ¬ t ≤ 0x4e := by
+  have h : Refine.covered.all (fun t => decide (kind t = .operation ∧ ¬ (t = 0xad ∨ t = 0xaf) ∧
+      Core.inConditionalRange t = false ∧ ¬ t ≤ 0x4e)) = true := by decide
+  intro t ht
+  have := List.all_eq_true.mp h t ht
+  simpa using this
+
+theorem well_covered (cx : Btclib.Ctx) (sc : Bytes) (t : Nat) (h : t ∈ Refine.covered) : WellOp cx sc t := by
+  simp only [Refine.covered, List.mem_append] at h
+  rcases h with (h | h) | h
+  · exact well_stack cx sc t h
+  · exact well_arith cx sc t h
+  · exact well_misc cx sc t (Or.inl h)
+
+theorem pick_roll_refines (cx : Btclib.Ctx) (sc : Bytes) (stack alt : List Bytes) :
+    btRes (operation cx 0x79 stack alt) = coreRes (Core.execStackOp (coreCx cx sc) stack alt 0x79) ∧
+    btRes (operation cx 0x7a stack alt) = coreRes (Core.execStackOp (coreCx cx sc) stack alt 0x7a) := by
+  obtain ⟨h1, h2⟩ := pick_roll_core cx sc stack alt
+  constructor
+  · rw [h1]
+    show _ = coreRes (some ((Core.execPickRoll (coreCx cx sc) stack false).map fun s => (s, alt)))
+    cases Core.execPickRoll (coreCx cx sc) stack false <;> rfl
+  · rw [h2]
+    show _ = coreRes (some ((Core.execPickRoll (coreCx cx sc) stack true).map fun s => (s, alt)))
+    cases Core.execPickRoll (coreCx cx sc) stack true <;> rfl
+
+
+theorem pick_roll_facts : ∀ t, (t = 0x79 ∨ t = 0x7a) →
+    kind t = .operation ∧ ¬ (t = 0xad ∨ t = 0xaf) ∧ Core.inConditionalRange t = false ∧ ¬ t ≤ 0x4e := by
+  intro t h; rcases h with rfl | rfl <;> decide
+
+/-- one covered instruction: btclib's passes simulate Core's step -/
+theorem sim_op_covered (cx : Btclib.Ctx) (sc : Bytes) (st : St) (cst : Core.State) (op : Op) (rest : Bytes)
+    (hR : R st cst) (hsz : st.stack.length + st.alt.length ≤ 1000) (hg : getOp st.s = some (op, rest))
+    (hcov : coveredCode op.code = true) : SimOp cx sc st cst op rest := by
+  cases hs : st.s with
+  | nil => rw [hs] at hg; simp [getOp] at hg
+  | cons c r =>
+    rw [hs] at hg
+    by_cases hp : 0 < c.toNat ∧ c.toNat ≤ 78
+    · exact sim_push cx sc st cst c r op rest hR hsz hs hp hg
+    · obtain ⟨hop, hrest⟩ := getOp_nonpush c r op rest hg hp
+      subst hop hrest
+      simp only at hcov
+      have hcs : c.toNat ≠ 0xab := by
+        intro e; rw [e] at hcov; revert hcov; decide
+      apply sim_nonpush cx sc st cst c rest hR hsz hs hp hcs
+      intro st1 s1 hR1 _ _ _ _ hv _ _ hh
+      -- which family
+      have hrange_of : ∀ (p : ¬ (99 ≤ c.toNat ∧ c.toNat < 105)), cst.vfExec.all id = true := by
+        intro p; rcases hh with h | h
+        · exact h
+        · exact absurd h p
+      simp only [coveredCode, Bool.or_eq_true, decide_eq_true_eq, Bool.and_eq_true, beq_iff_eq,
+        List.contains_iff_mem] at hcov
+      rcases hcov with ((((((((((((((h | h) | h) | h) | h) | h) | h) | h) | h) | h) | h) | h) | h) | h) | h) | h
+      · -- OP_0
+        have h0 : c.toNat = 0 := by omega
+        rw [hrange_of (by omega)]
+        exact disp_digit cx sc _ _ st1 s1 (Or.inl h0) hR1
+      · rw [hrange_of (by omega)]
+        exact disp_digit cx sc _ _ st1 s1 (Or.inr h) hR1
+      · rw [hrange_of (by omega), h]
+        exact disp_nop cx sc _ st1 s1 hR1
+      · have hf := (nopN_exec (coreCx cx sc) [] [] _ h).2.2.1
+        rw [hrange_of (by
+          intro p; simp only [nopNs, List.mem_cons, List.mem_nil_iff, or_false] at h; omega)]
+        exact disp_nopN cx sc _ _ st1 s1 h hR1
+      · obtain ⟨f1, f2, f3, f4⟩ := covered_facts _ h
+        rw [hrange_of (by
+          intro p
+          have : Core.inConditionalRange c.toNat = true := by
+            unfold Core.inConditionalRange Core.OP_IF Core.OP_ENDIF; simp; omega
+          rw [this] at f3; cases f3)]
+        exact disp_operation cx sc _ _ st1 s1 f1 f2 f3 f4 (fun stack alt => operation_refines cx sc _ h stack alt)
+          (well_covered cx sc _ h) hR1
+      · rw [hrange_of (by omega), h]
+        obtain ⟨f1, f2, f3, f4⟩ := pick_roll_facts 0x79 (Or.inl rfl)
+        exact disp_operation cx sc _ _ st1 s1 f1 f2 f3 f4 (fun stack alt => (pick_roll_refines cx sc stack alt).1)
+          (well_misc cx sc _ (Or.inr (Or.inl rfl))) hR1
+      · rw [hrange_of (by omega), h]
+        obtain ⟨f1, f2, f3, f4⟩ := pick_roll_facts 0x7a (Or.inr rfl)
+        exact disp_operation cx sc _ _ st1 s1 f1 f2 f3 f4 (fun stack alt => (pick_roll_refines cx sc stack alt).2)
+          (well_misc cx sc _ (Or.inr (Or.inr rfl))) hR1
+      · rw [hrange_of (by omega), h]
+        exact (disp_locktime cx sc _ st1 s1 hR1).1
+      · rw [hrange_of (by omega), h]
+        exact (disp_locktime cx sc _ st1 s1 hR1).2
+      · exact disp_conditional cx sc _ _ st1 s1 _ (by omega) hR1 (by rw [hv])
+      · exact disp_conditional cx sc _ _ st1 s1 _ (by omega) hR1 (by rw [hv])
+      · exact disp_conditional cx sc _ _ st1 s1 _ (by omega) hR1 (by rw [hv])
+      · exact disp_conditional cx sc _ _ st1 s1 _ (by omega) hR1 (by rw [hv])
+      · exact disp_conditional cx sc _ _ st1 s1 _ (by omega) hR1 (by rw [hv])
+      · exact disp_conditional cx sc _ _ st1 s1 _ (by omega) hR1 (by rw [hv])
+      · rw [hrange_of (by
+          intro p; simp only [badOps, List.mem_cons, List.mem_nil_iff, or_false] at h; omega)]
+        exact disp_badop cx sc _ _ st1 s1 h
+
+
+theorem parseOps_length (f : Nat) (s : Bytes) : (parseOps f s).1.length ≤ s.length := by
+  induction f generalizing s with
+  | zero => simp [parseOps]
+  | succ f ih =>
+    unfold parseOps
+    cases hg : getOp s with
+    | none => simp
+    | some p =>
+      obtain ⟨op, rest⟩ := p
+      have := (getOp_spec s op rest hg).2
+      have := ih rest
+      simp only [List.length_cons]; omega
+
+/-- T3 at loop level: on every script made of covered op codes, from every initial stack within the limit, under every
+    flag set, the btclib-shaped interpreter and Core's `EvalScript` give the same verdict and the same final stack -/
+theorem eval_refines (cx : Btclib.Ctx) (script : Bytes) (stack : List Bytes)
+    (hcov : covered script = true) (hsz : stack.length ≤ 1000) :
+    Btclib.eval cx script stack = toOut (Core.evalWith (coreCx cx script) stack 0) := by
+  unfold Btclib.eval Core.evalWith
+  rw [sv_counted]
+  have hscr : (coreCx cx script).script = script := rfl
+  rw [hscr]
+  by_cases hlen : script.length > 10000
+  · simp [Gen.Script.N_MAX_SCRIPT_SIZE, Core.MAX_SCRIPT_SIZE, hlen, toOut]
+  · have hnocs : (parse script).1.any (fun o => o.code == 0xab) = false := by
+      rw [List.any_eq_false]
+      intro o ho
+      have := List.all_eq_true.mp hcov o ho
+      intro e
+      have e' : o.code = 0xab := by simpa using e
+      rw [e'] at this; revert this; decide
+    simp only [Gen.Script.N_MAX_SCRIPT_SIZE, Core.MAX_SCRIPT_SIZE, hlen, if_false, hnocs, Bool.false_and,
+      Bool.false_eq_true, Bool.true_and, decide_false]
+    have hsim := sim_loop cx script
+      (fun st cst op rest hR hs hg hin => sim_op_covered cx script st cst op rest hR hs hg
+        (List.all_eq_true.mp hcov op hin))
+      script.length script { stack := stack, s := script } { m := { stack := stack, weightLeft := 0 } }
+      (3 * script.length + 2) rfl ⟨rfl, rfl, rfl, rfl⟩ (by simpa using hsz) (Nat.le_refl _)
+      (fun op h => h) (by have := parseOps_length script.length script; omega)
+    rw [hsim]
+    show finish (Core.run (coreCx cx script) (parse script).1 _) (parse script).2 = _
+    cases Core.run (coreCx cx script) (parse script).1 { m := { stack := stack, weightLeft := 0 } } with
+    | error e => rfl
+    | ok c =>
+      simp only [finish, toOut]
+      by_cases ht : (!(parse script).2.isEmpty) = true
+      · simp [ht]
+      · by_cases hv : (!c.vfExec.isEmpty) = true
+        · simp [ht, hv]
+        · simp [ht, hv]
+
+
 end Btc.Script.Sim
